@@ -90,6 +90,10 @@ def run(ctx, prefixes):
         # the receiver resets a stream, the sender's DATA for it is still on its way: all of it is credited back
         {"h": [act("headers", 1), act("headers", 3), act("data", 1, 1000), act("brst", 1), act("data", 1, 16383), act("data", 1, 16383),
                act("data", 1, 16383), act("data", 3, 100, es=True)]},
+        # the sender is gone; the receiver resets a stream (a frame that goes through the other direction's output channel and
+        # cannot be written), pings and opens its windows
+        {"h": [act("headers", 1), act("headers", 3), act("data", 1, 40000), act("data", 1, 40000, es=True), act("close_full"), act("brst", 1), act("brst", 3),
+               act("brst", 1), act("bping"), act("ctl", 0, t="WU", v=65535), act("ctl", 1, t="WU", v=65535), act("bping"), act("brst", 3), act("bping")]},
         # a PUSH_PROMISE whose header block is completed by a CONTINUATION frame, then the response
         {"h": [act("headers", 1), act("push_open", 1, n=2), act("cont", 1), act("headers", 1, es=True)], "dir": "s2c"},
         {"h": [act("headers", 3), act("data", 3, 100), act("push_open", 3, n=4), act("cont", 3), act("data", 3, 100, es=True)], "dir": "s2c"},
@@ -98,6 +102,12 @@ def run(ctx, prefixes):
         {"h": [act("headers", 1), act("data", 1, 40000), act("data", 1, 40000, es=True), act("close_full"), act("bping"),
                act("ctl", 0, t="WU", v=65535), act("ctl", 1, t="WU", v=65535)]},
     ]
+    # the fixed schedules once more under the race detector: the relay's goroutines (two readers, two writers) share framers
+    nfixed = len(cases) - len(hists)
+    binr = ctx.build(out="vh-race", race=True)
+    outr = ctx.run_vh(binr, ["h2"], cases=cases[len(hists):], timeout=1200)
+    outr, crashed = ctx.nocrash(outr, "%s:data-race-or-crash" % ctx.pid)
+    ctx.evaluations += nfixed
     trace = os.path.join(ctx.work, "h2.ndjson")
     out = ctx.run_vh(binp, ["h2", "--arg", "trace=" + trace], cases=cases, timeout=3000)
     out, crashed = ctx.nocrash(out, "%s:crash" % ctx.pid)
